@@ -142,6 +142,8 @@ def falsify(ctx, case: Dict) -> bool:
                 i = (len(rows) * 7 + 3) % n_c
                 ind.calculate_index(i)
                 ind.calculate_index(-1)
+                # the oldest candle, which has no previous candle to read from
+                ind.calculate_index(0 if len(rows) % 4 == 0 else -n_c)
                 if n_c > 3:
                     ind.calculate_index(max(0, i - 2), min(n_c, i + 2))
                 bad = relations(spec["kind"], ind, E.snapshot(ind))
